@@ -3,6 +3,7 @@ package main
 // Targeted totality probes: non-finite intermediate results, huge scales, partial-precision
 // dates, out-of-range positions, malformed sources, unimplemented constructs.
 var c01Targeted = []string{
+	"2.power(2147483647)", "(-1).power(2147483647)", "2.power(31)", "2.power(30)", "2.power(-2147483648)", "0.power(0)", "(-2).power(31)", "46341.power(2)",
 	"1000.exp()", "1000000.exp()", "0.ln()", "(-1).ln()", "(-1).sqrt()", "1.5.round(100)", "1.5.round(-1)", "1.5.round(2147483647)", "2.power(1000)", "2.power(0.5)", "(-8).power(0.3333)", "0.power(-1)", "10.power(-400)",
 	"0.log(0)", "1.log(1)", "8.log(-2)", "2147483647.abs()", "(-2147483648).abs()", "1.truncate()", "99999999999999999999.9.truncate()", "99999999999999999999.9.floor()", "99999999999999999999.9.ceiling()",
 	"1 / 0.0000000000000000000000001", "99999999999999999999 * 99999999999999999999", "@2020T.toDate()", "@2020-02T + 1 day", "@2020T - 100000 years", "@9999-12-31 + 1 year", "@0001-01-01 - 1 year", "@T23:59:59.999 + 1 millisecond",
